@@ -41,45 +41,26 @@ impl Server {
 }
 
 fn probe(server: &Server) {
-    let reqs: Vec<Vec<u8>> = vec![
-        live::request("GET", "/p/u128/340282366920938463463374607431768211455", &[], None),
-        live::request("GET", "/q/u128?v=5", &[], None),
-        live::request("GET", "/q/i128?v=-5", &[], None),
-        live::request("GET", "/q/u64?v=5&o=7&d=9", &[], None),
-        live::request("GET", "/q/u64?v=5&v=6", &[], None),
-        live::request("GET", "/q/u64?v=5&zz=6", &[], None),
-        live::request("GET", "/q/u64?v=%2B5", &[], None),
-        live::request("GET", "/q/u64?v=-0", &[], None),
-        live::request("GET", "/q/i64?v=-0", &[], None),
-        live::request("GET", "/q/str?v=a+b%20c%FF", &[], None),
-        live::request("GET", "/q/str?v", &[], None),
-        live::request("GET", "/q/str?v=1&o=", &[], None),
-        live::request("GET", "/q/u8?v=1&o=", &[], None),
-        live::request("GET", "/q/char?v=%F0%9F%98%80", &[], None),
-        live::request("GET", "/q/enum?v=dark-blue", &[], None),
-        live::request("GET", "/q/enum?v=DarkBlue", &[], None),
-        live::request("GET", "/q/bool?v=True", &[], None),
-        live::request("GET", "/po/5", &[], None),
-        live::request("GET", "/po/x", &[], None),
-        live::request("GET", "/pw/5", &[], None),
-        live::request("GET", "/pw/5/a/b%2Fc//d/", &[], None),
-        live::request("GET", "/p/str/a%20b+c", &[], None),
-        live::request("GET", "/p/str/a b", &[], None),
-        live::request("GET", "/p/str/a\u{e9}", &[], None),
-        live::request("GET", "/p/str/a?x#y", &[], None),
-        live::request("PUT", "/b/json", &[], Some(br#"{"s":"x","n":-1,"big":18446744073709551615,"b":true,"c":"c","e":"green","o":null,"l":[1,2]}"#)),
-        live::request("PUT", "/b/json", &[("Content-Type", "Application/JSON ; charset=utf-8")], Some(br#"{"s":"x","n":-1,"big":1,"b":true,"c":"c","e":"green","l":[]}"#)),
-        live::request("PUT", "/b/json", &[("Content-Type", "text/plain")], Some(br#"{}"#)),
-        live::request("PUT", "/b/json", &[("Content-Type", "application/x-www-form-urlencoded")], Some(br#"{}"#)),
-        live::request("PUT", "/b/json", &[("Content-Type", "application/json\u{e9}")], Some(br#"{}"#)),
-        live::request("PUT", "/b/form", &[("Content-Type", "application/x-www-form-urlencoded")], Some(b"s=a+b&n=-3&big=7&b=false&c=%C3%A9&e=Red")),
-        live::request("PUT", "/b/form", &[], Some(b"s=a")),
-        live::request("PUT", "/b/raw", &[("Content-Type", "what/ever")], Some(b"\x00\xff")),
-        live::request("POST", "/b/mp", &[("Content-Type", "multipart/form-data; boundary=\"X B\"")], Some(b"--X B\r\nContent-Disposition: form-data; name=\"f\"\r\n\r\nhello\r\n--X B--\r\n")),
-        live::request("POST", "/b/mp", &[("Content-Type", "multipart/form-data ; boundary=XB")], Some(b"--XB\r\nContent-Disposition: form-data; name=\"f\"\r\n\r\nhello\r\n--XB--\r\n")),
-        live::request("POST", "/b/mp", &[("Content-Type", "Multipart/Form-Data;charset=x; BOUNDARY=XB")], Some(b"--XB\r\nContent-Disposition: form-data; name=\"f\"\r\n\r\nhello\r\n--XB--\r\n")),
-        live::request("POST", "/b/mp", &[], Some(b"--XB\r\n")),
+    let body: &[u8] = b"--XB\r\nContent-Disposition: form-data; name=\"f\"\r\n\r\nhello\r\n--XB--\r\n";
+    let cts = [
+        "multipart/form-data ;\tboundary=XB",
+        "multipart/form-data;; boundary=XB",
+        "multipart/form-data; ; boundary=XB",
+        "multipart/form-data; boundary=XB;",
+        "multipart/form-data; x=\"\"; boundary=XB",
+        "multipart/form-data; x=\"a\\\"b\"; boundary=XB",
+        "multipart/form-data; x=\"a\tb\"; boundary=XB",
+        "multipart/form-data; x=\"q ; r\"; boundary=XB",
+        "multipart/form-data; boundary=\"XB\"",
+        "multipart/form-data; boundary=XB; x=\"\"",
     ];
+    let reqs: Vec<Vec<u8>> = cts
+        .iter()
+        .map(|ct| {
+            println!("CT: {:?}", ct);
+            live::request("POST", "/b/mp", &[("Content-Type", ct)], Some(body))
+        })
+        .collect();
     for r in reqs {
         let head = String::from_utf8_lossy(&r[..r.len().min(120)]).to_string();
         let before = server.ctx().total();
